@@ -14,7 +14,8 @@ func init() { register(&stream{name: "evalcache", gen: genEvalCache, run: runSto
 
 func genEvalCache(g *gen) {
 	n := 150 * g.scale
-	clusters := []string{"a", "a b", "c1"}
+	// "A" differs from "a" only in case; "C1" and "A B" are NOT configured (storage is case-sensitive)
+	clusters := []string{"a", "a b", "c1", "A"}
 	groups := []string{"c", "b c", "g", "", "x y z"}
 	for i := 0; i < n; i++ {
 		g.newCase()
@@ -30,8 +31,8 @@ func genEvalCache(g *gen) {
 		}
 		g.emit("S cacheinit %d %08x %d", g.pick(0, 5, 10, 10), math.Float32bits(0), g.pick(0, 1000))
 		pickC := func() string {
-			if g.chance(1, 12) {
-				return hexName("nope")
+			if g.chance(1, 8) {
+				return hexName(g.pickS("nope", "C1", "A B"))
 			}
 			return hexName(clusters[g.intn(len(clusters))])
 		}
